@@ -20,6 +20,18 @@ def run_e1(prop, tier, driver, plan, nops, rule, assumptions, design_ref, extra_
         v = st["variant"]
         if v not in bins:
             bins[v] = C.ensure_driver(v, driver)
+    # recorded races are suppressed by call site (TSan suppression pattern stored with the finding) so that a known finding
+    # neither ends a shard nor hides a different race
+    known0 = C.known_keys(prop)
+    supps = sorted({e["tsan_suppression"] for e in known0.values() if e.get("tsan_suppression")})
+    if supps:
+        sf = os.path.join(wd, "tsan.supp")
+        with open(sf, "w") as f:
+            f.write("\n".join(supps) + "\n")
+        os.environ["VERIF_TSAN_SUPP"] = sf
+    else:
+        os.environ.pop("VERIF_TSAN_SUPP", None)
+    supp_hits = {}
     stages = []
     all_fails = []
     hashes = set()
@@ -39,7 +51,11 @@ def run_e1(prop, tier, driver, plan, nops, rule, assumptions, design_ref, extra_
         st_wall = max((s["wall"] for s in shards), default=0.0)
         nfail = 0
         for sh in shards:
+            for cnt, pat in re.findall(r"^(\d+) (race\S*:\S+)$", sh["stderr"] or "", re.M):
+                supp_hits[pat] = supp_hits.get(pat, 0) + int(cnt)
             for f in sh["fails"]:
+                if f["class"] == "race":
+                    f["class"] = "race:" + _race_signature(sh["stderr"])
                 f["variant"] = v
                 f["args"] = st.get("args", [])
                 f["stderr"] = sh["stderr"]
@@ -81,6 +97,7 @@ def run_e1(prop, tier, driver, plan, nops, rule, assumptions, design_ref, extra_
             continue
         reported[key] = {"first": f, "count": 1}
     out_lines = []
+    met = {}
     for key, info in list(reported.items())[:max_report]:
         f = info["first"]
         ff = C.parse_fail_file(f["file"])
@@ -90,20 +107,25 @@ def run_e1(prop, tier, driver, plan, nops, rule, assumptions, design_ref, extra_
             "decisions": ff.get("decisions", []), "log_tail": ff.get("log_tail", []), "opts": _opts_from_args(f["args"]),
             "occurrences_in_this_run": info["count"], "tier": tier,
         }
-        if f["class"] == "race":
+        if f["class"].startswith("race"):
             rec["tsan_report"] = _tsan_excerpt(f["stderr"])
+            rec["class"] = "race"      # what the driver reports on replay; the signature is kept separately
+            rec["race_signature"] = f["class"]
         try:
             rec = C.e1_minimise(bins[f["variant"]], rec, wd, nops=nops)
         except Exception as e:  # minimisation is best effort; the unminimised record still replays
             rec["minimise_error"] = repr(e)
         if key in known:
-            out_lines.append("KNOWN-FINDING: property=%s %s" % (prop, known[key].get("what", key)))
+            met[known[key]["key"]] = met.get(known[key]["key"], 0) + info["count"]
             continue
         path = C.write_replay(prop, rec)
         out_lines.append("VIOLATION property=%s replay=%s" % (prop, path))
         out_lines.append("  class=%s seed=%d variant=%s scenario=[%s] msg=%s" % (rec["class"], rec["seed"], rec["variant"], rec.get("scenario"), rec.get("msg")))
         violations += 1
 
+    for key, e in sorted(known.items()):
+        n = met.get(key, 0) + (supp_hits.get(e.get("tsan_suppression"), 0) if e.get("tsan_suppression") else 0)
+        out_lines.insert(0, "KNOWN-FINDING: property=%s %s [key %s; met %d time(s) in this run]" % (prop, e.get("what", key), key, n))
     wall = time.time() - t0
     nontrivial = len(hashes)
     cov = {
@@ -154,6 +176,36 @@ def _opts_from_args(args):
     return o
 
 
-def _tsan_excerpt(err):
+def _tsan_first_report(err):
     i = err.find("WARNING: ThreadSanitizer")
-    return err[i:i + 3500] if i >= 0 else err[-2000:]
+    if i < 0:
+        return ""
+    j = err.find("SUMMARY: ThreadSanitizer", i)
+    return err[i:(err.find("\n", j) if j >= 0 else i + 20000)]
+
+
+def _tsan_excerpt(err):
+    """first report, without the std::invoke / prelude plumbing frames"""
+    rep = _tsan_first_report(err)
+    if not rep:
+        return err[-2000:]
+    keep = [l for l in rep.split("\n") if not re.match(r"\s+#\d+ ", l) or "/repo/" in l or "/verif/drivers/" in l]
+    return "\n".join(l[:300] for l in keep)[:6000]
+
+
+def _race_signature(err):
+    """'<innermost repo functions of access 1>|<... of access 2>' of the first report: names, not lines or addresses"""
+    rep = _tsan_first_report(err)
+    stacks, cur = [], None
+    for l in rep.split("\n"):
+        if re.match(r"\s+(Read|Write|Previous read|Previous write|Atomic|Previous atomic)", l):
+            cur = []
+            stacks.append(cur)
+        elif re.match(r"\s+(Location|Thread|Mutex|As if)", l) or not l.strip():
+            cur = None
+        elif cur is not None:
+            m = re.match(r"\s+#\d+ (\S+) (/repo/src/\S+?):\d+", l)
+            if m and len(cur) < 2:
+                cur.append(m.group(1))
+    sig = sorted("<".join(s) for s in stacks[:2] if s)
+    return "|".join(sig) if sig else "unattributed"
